@@ -5,66 +5,68 @@ import NomtModel.Store.WalkerReconMut
 
 `T2_walker_root_partial` / `T2_walker_pages_partial` (`Props/C02_PageWalker.lean`) assume that every page on the way to a terminal
 was loaded from the hash table (`PSOK`).  Here the pages on the way may have ANY origin (`G.PSOK`: `Persisted` or
-`Reconstructed` with arbitrary leaf counters and diff) — walks that ENTER reconstructed (elided) pages.  The simulation
-(`Store/WalkerGSim*.lean`, the generalised copy of `Store/WalkerSim*.lean`) excludes every panic site but ONE: the
-`try_into().unwrap()` of `handle_elision_threshold` (`G.GUARD`: the parent's children counter would go negative).  What is
-left, exactly: "the parent's current counter is at least the old counters of the reconstructed child being elided" — a fact
-about the leaf counters the page set was reconstructed with and the left-to-right order of the walk (`notes/Q35.md` (d) 1); the
-`walker --focus recon` differential reached that site in none of 46 543 commits that entered reconstructed pages.
+`Reconstructed`) — walks that ENTER reconstructed (elided) pages.  The simulation (`Store/WalkerGSim*.lean`, the generalised
+copy of `Store/WalkerSim*.lean`) excludes EVERY panic site, including the `try_into().unwrap()` of `handle_elision_threshold`
+(`new_parent_children_leaves_counter < 0`): the guard holds by the accounting of `Store/WalkerAcct.lean` — the counter of a
+stack page always covers the old weights (`page_leaves_counter + children_leaves_counter`) of its reconstructed children that
+have not been left yet — which needs (i) `OriginsOK`: the counters the page set was reconstructed with are consistent (the
+`children_leaves_counter` of a reconstructed page is at least the sum of the weights of its reconstructed children; what the
+oracle `C02 recon counters` checks, there with equality), (ii) no page of the page set lies below a replaced terminal, and
+(iii) no page is left twice along an ascending script (`Store/WalkerTreeLogInv.lean`).
 -/
 namespace Nomt.C02
 open Nomt Nomt.Walker Nomt.TriePos
 
 variable {Node VH : Type} [DecidableEq Node] [DecidableEq VH] (H : Hasher Node VH)
 
-/-- **T2_walker_root / T2_walker_pages over reconstructed pages (narrowed to one guard)**: for a page set that represents `S`
-(every materialised slot below an internal parent holds `nodeAt`, whatever the origin of its page), an ascending prefix-free
+/-- **T2_walker_root / T2_walker_pages over reconstructed pages**: for a page set that represents `S` (every materialised slot
+below an internal parent holds `nodeAt`, whatever the origin of its page) whose reconstructed pages carry consistent leaf
+counters (`G.PSOK.origins`) and which holds no page below a replaced terminal (`G.PSOK.clean`), an ascending prefix-free
 in-scope script, every page on the way present with 126 slots (ANY origin), pool pages arbitrary, elision active or inhibited:
-EITHER every call and `conclude` return `ok`, `conclude` returns `Output::Root(nodeAt S')`, and every page handed out is an
-`UpdatedPage` with 126 slots whose slots below internal parents hold `nodeAt S'` and whose diff names every slot that differs
-from the page it started from; OR the run (or `conclude`) stops at the one guard `G.GUARD` — no other panic site is
-reachable. -/
-theorem T2_walker_root_reconstructed_partial (hs : H.Sound) (ps : PageSet Node) (root : Node) {S S' : List (Key × VH)}
+every call and `conclude` return `ok` — in particular `new_parent_children_leaves_counter` never goes negative —, `conclude`
+returns `Output::Root(nodeAt S')`, and every page handed out is an `UpdatedPage` with 126 slots whose slots below internal
+parents hold `nodeAt S'` and whose diff names every slot that differs from the page it started from. -/
+theorem T2_walker_root_reconstructed (hs : H.Sound) (ps : PageSet Node) (root : Node) {S S' : List (Key × VH)}
     (hS : KeysOK S) (hS' : KeysOK S') {steps : List (Step VH)} (hso : ScriptOK S S' steps) (hps : G.PSOK ps steps)
     (hrep : Represents H ps root S) (inhibit : Bool) :
-    (∃ w' pages, (Walker.start root inhibit).runM H ps steps = .ok w' ∧
+    ∃ w' pages, (Walker.start root inhibit).runM H ps steps = .ok w' ∧
       w'.conclude H = .ok (.root (nodeAt H 256 0 S') pages) ∧
       ∀ o ∈ pages, ∃ P pg d b, o = .updated P pg d b ∧ pg.nodes.length = 126 ∧
         (∀ q, q ≠ [] → q.length ≤ 256 → specPage q = P → MatR ps steps q → Mean S' q →
           pg.nodes.getD (specIndex q) H.term = specNode H S' q) ∧
-        ∃ base, BaseOf ps P base ∧ DiffNames H pg.nodes base d) ∨
-    (Walker.start root inhibit).runM H ps steps = .panic G.GUARD ∨
-    (∃ w', (Walker.start root inhibit).runM H ps steps = .ok w' ∧ w'.conclude H = .panic G.GUARD) := by
+        ∃ base, BaseOf ps P base ∧ DiffNames H pg.nodes base d := by
   have hrepR := rep_matR H ps hS hso hrep
   have hDp : PathsIn (MatR ps steps) steps := by
     intro s hs' x hx hne
     have := G.pathsIn_of_psok ps hps s hs' x hx hne
     exact ⟨Or.inl this.1, Or.inl this.2⟩
-  rcases G.runInv_run H ps hs hS hS' hrepR (Or.inl (Or.inl rfl)) steps [] _ _
+  have hnd := G.final_log_nodup H ps hs none hS hS' hso hrepR hDp
+  obtain ⟨w', hw', hinv⟩ := G.runInv_run H ps hs hS hS' hrepR (Or.inl (Or.inl rfl)) steps [] _ _
     (by simpa using hso) (by simpa using hps) (by simpa using hDp) (by intro P0 hp; cases hp)
-    (G.runInv_start H ps _ none root S S' steps inhibit) with ⟨w', hw', hinv⟩ | hp
-  · simp only [List.nil_append] at hinv
-    rcases G.conclude_spec H ps hs hS hS' hso hrepR (Or.inl (Or.inl rfl)) hinv with ⟨pages, hc, hpg⟩ | hpc
-    · exact Or.inl ⟨w', pages, hw', hc, hpg⟩
-    · exact Or.inr (Or.inr ⟨w', hw', hpc⟩)
-  · exact Or.inr (Or.inl hp)
+    (G.runInv_start H ps _ none root S S' steps inhibit) _ hnd (tw_compactUp_log_prefix H _ _ none)
+  simp only [List.nil_append] at hinv
+  obtain ⟨pages, hc, hpg⟩ := G.conclude_spec H ps hs hS hS' hso hrepR (Or.inl (Or.inl rfl)) hinv hnd
+  refine ⟨w', pages, hw', hc, ?_⟩
+  intro o ho
+  obtain ⟨P, pg, d, b, e, hl, hm, hdiff, _⟩ := hpg o ho
+  exact ⟨P, pg, d, b, e, hl, hm, hdiff⟩
 
 /-- non-vacuity: the hypotheses hold for the empty page set … -/
-example : (∃ w' pages, (Walker.start T.term false).runM TH Ex.exPs Ex.exSteps = .ok w' ∧
+example : ∃ w' pages, (Walker.start T.term false).runM TH Ex.exPs Ex.exSteps = .ok w' ∧
       w'.conclude TH = .ok (.root (nodeAt TH 256 0 Ex.exS') pages) ∧
       ∀ o ∈ pages, ∃ P pg d b, o = .updated P pg d b ∧ pg.nodes.length = 126 ∧
         (∀ q, q ≠ [] → q.length ≤ 256 → specPage q = P → MatR Ex.exPs Ex.exSteps q → Mean Ex.exS' q →
           pg.nodes.getD (specIndex q) TH.term = specNode TH Ex.exS' q) ∧
-        ∃ base, BaseOf Ex.exPs P base ∧ DiffNames TH pg.nodes base d) ∨
-    (Walker.start T.term false).runM TH Ex.exPs Ex.exSteps = .panic G.GUARD ∨
-    (∃ w', (Walker.start T.term false).runM TH Ex.exPs Ex.exSteps = .ok w' ∧ w'.conclude TH = .panic G.GUARD) :=
-  T2_walker_root_reconstructed_partial TH TH_sound Ex.exPs T.term Ex.exKeys Ex.exKeys' Ex.exScript
+        ∃ base, BaseOf Ex.exPs P base ∧ DiffNames TH pg.nodes base d :=
+  T2_walker_root_reconstructed TH TH_sound Ex.exPs T.term Ex.exKeys Ex.exKeys' Ex.exScript
     ⟨fun _ => by simp [Ex.exPs], fun s hs hne => by
       simp only [Ex.exSteps, List.mem_singleton] at hs
-      rw [hs] at hne; exact absurd rfl hne⟩ Ex.exRep false
+      rw [hs] at hne; exact absurd rfl hne,
+     originsOK_of_no_recon _ (fun _ _ _ _ _ h => by simp [Ex.exPs] at h),
+     fun _ _ _ _ _ _ => rfl⟩ Ex.exRep false
 
 /-- … and the promotion history of `Store/WalkerReconMut.lean` really walks INTO reconstructed pages with real counters (19
-leaves, `page_leaves_counter = 19` resp. `children_leaves_counter = 19`) without reaching the guard (kernel evaluation) -/
+leaves, `page_leaves_counter = 19` resp. `children_leaves_counter = 19`; kernel evaluation) -/
 theorem T2_walk_into_reconstructed_instance :
     ReconMut.verdictDrop false = some (true, true) ∧ ReconMut.verdictStale false = some (true, true) := by
   constructor <;> decide +kernel
